@@ -10,6 +10,18 @@ from vf.specs import ips_format
 
 
 def pattern(n, seed):
+    """block contents: an int seeds a byte pattern; ("mix", alphabet, s) draws every byte from a small alphabet (fills, padding, masks);
+    ("dev", value, pos, other) is a constant fill with ONE deviating byte"""
+    if isinstance(seed, (list, tuple)):
+        if seed[0] == "mix":
+            alpha, r = list(seed[1]), random.Random(seed[2])
+            return bytes(r.choice(alpha) for _ in range(n))
+        if seed[0] == "dev":
+            b = bytearray([seed[1]]) * n
+            if n:
+                b[seed[2] % n] = seed[3]
+            return bytes(b)
+        raise ValueError(seed)
     return bytes(((i * 31 + seed) ^ (i >> 8)) & 0xFF for i in range(n))
 
 
@@ -89,6 +101,18 @@ def gen_header_patterns(tier, rng):
             yield {"copier": copier, "blocks": [(0x1000000 - n - d, n, 3)]}
 
 
+def gen_contents(tier, rng):
+    """blocks whose bytes come from a tiny alphabet: constant fills, 00/FF mixtures, fills with a single deviating byte (first, last, middle)"""
+    lens = [1, 2, 3, 8, 9, 10, 16, 300, 0xFFFF, 0x10001] + ([0x10000, 2 * 0xFFFF + 9] if tier == "thorough" else [])
+    for copier in (False, True):
+        for n in lens:
+            for alpha in ([0], [0xFF], [0x20], [0, 0xFF], [0xFF, 0], [0, 1], [0xFE, 0xFF], [0, 0x80, 0xFF]):
+                yield {"copier": copier, "blocks": [(rng.choice([0, 0x8000, 0x1FE00]), n, ("mix", alpha, rng.randrange(1000)))]}
+            for value, other in ((0, 0xFF), (0xFF, 0), (0, 1), (0x20, 0x21)):
+                for pos in (0, n - 1, n // 2, 0xFFFE, 0xFFFF):
+                    yield {"copier": copier, "blocks": [(0x8000, n, ("dev", value, pos, other))]}
+
+
 def gen_histories(tier, rng):
     """sequences in which a write is REPEATED after an overlapping one (the last write must win), or repeated back to back, or rewritten with other data"""
     for copier in (False, True):
@@ -105,7 +129,7 @@ def gen_histories(tier, rng):
 
 def run(tier, seed):
     rng = random.Random(seed)
-    cases = list(gen(tier, rng)) + list(gen_histories(tier, rng)) + list(gen_header_patterns(tier, rng))
+    cases = list(gen(tier, rng)) + list(gen_histories(tier, rng)) + list(gen_header_patterns(tier, rng)) + list(gen_contents(tier, rng))
     failures = []
     for c in cases:
         f = check(c)
@@ -113,12 +137,12 @@ def run(tier, seed):
             failures.append({"ident": "bounded/ips-roundtrip", "script": "b_C11.py", "payload": c, "observed": f})
     return {"evaluations": len(cases), "distinct_nontrivial": len({str(c) for c in cases}),
             "rule": "block sequences (lengths 0, 1, around every multiple of 65535; addresses 0 .. beyond 2^24 incl. 0x454F46 and 0xFE00-type copier carries; "
-                    "with/without copier header; 1-5 blocks; repeated / overlapping / rewritten blocks) written by the real IPSWriter to a real BytesIO, parsed by an independent reader",
+                    "with/without copier header; 1-5 blocks; repeated / overlapping / rewritten blocks; contents from byte patterns, tiny alphabets (fills, 00/FF mixtures) and fills with one deviating byte) written by the real IPSWriter to a real BytesIO, parsed by an independent reader",
             "samples": cases[:2], "failures": failures}
 
 
 def replay(payload):
-    payload["blocks"] = [tuple(b) for b in payload["blocks"]]
+    payload["blocks"] = [tuple(b) for b in payload["blocks"]]  # (contents given as lists are accepted by pattern())
     f = check(payload)
     return {"failed": f is not None, "observed": f}
 
